@@ -1,6 +1,7 @@
 package checks
 
 import (
+	"sort"
 	"math/rand"
 	"strings"
 	"time"
@@ -184,6 +185,39 @@ func buildC17(tier string, seed int64) *Family {
 				in.Params["notfunc"] = "N9"
 			}
 			insts = append(insts, in)
+		}
+	}
+	// the same damage in every argument position of the functions with several arguments
+	multi := map[string]int{"concat": 3, "contains": 2, "starts-with": 2, "ends-with": 2, "substring-before": 2, "substring-after": 2, "substring": 3, "translate": 3, "replace": 3, "matches": 2, "string-join": 2}
+	var fnames []string
+	for f := range multi {
+		fnames = append(fnames, f)
+	}
+	sort.Strings(fnames)
+	for fi, f := range fnames {
+		for pos := 0; pos < multi[f]; pos++ {
+			for bi, b := range []string{"N9 ( N1 )", "N9 :: N1"} {
+				if tier != "thorough" && (fi+pos+bi)%2 != 0 {
+					continue
+				}
+				args := make([]string, multi[f])
+				for i := range args {
+					args[i] = "N8"
+					if f == "substring" && i > 0 {
+						args[i] = "D7"
+					}
+					if (f == "translate" || f == "replace" || f == "matches") && i > 0 {
+						args[i] = "'a'"
+					}
+				}
+				args[pos] = b
+				in := rejectInst(f+" ( "+strings.Join(args, " , ")+" )", "nested-builder-damage")
+				in.Params["tokmax"] = "2"
+				if strings.HasPrefix(b, "N9 (") {
+					in.Params["notfunc"] = "N9"
+				}
+				insts = append(insts, in)
+			}
 		}
 	}
 	insts = dedupInst(insts)
